@@ -1228,7 +1228,7 @@ def c06_source(stream, scen=None):
     return wit
 
 
-MONITORS.update({'C02': [c02], 'C03': [c03], 'C05': [c05], 'C08': [c08], 'C11': [c11], 'C13': [c13],
+MONITORS.update({'C02': [c02], 'C03': [c03], 'C05': [c05], 'C08': [c08, c08_idle], 'C11': [c11], 'C13': [c13],
                  'C15': [c15], 'C16': [c16], 'C17': [c17, c05, c17_hist]})
 
 
